@@ -9,146 +9,141 @@ open Py Xs.Conv Xs.Spec Xs.Dates
 
 def fmtDate : Str := ['%', 'Y', '-', '%', 'm', '-', '%', 'd']
 def fmtTime : Str := ['%', 'H', ':', '%', 'M', ':', '%', 'S']
+def fmtTimeF : Str := fmtTime ++ ['.', '%', 'f']
 def fmtDateTime : Str := fmtDate ++ 'T' :: fmtTime
+def fmtDateTimeF : Str := fmtDate ++ 'T' :: fmtTimeF
 
-/-- **Full strength** (for the format `%Y-%m-%d`): every `datetime.date` is written by
-`DateConverter.serialize` in a form that `deserialize` reads back with the same format. -/
-def DateFormatRoundTrip : Prop :=
-  ∀ (e : CEnv) (y m d : Nat), 1 ≤ y → y ≤ 9999 → validateDate y m d = true →
-    ∃ s, atomSerialize (.pyDate y m d) { format := some fmtDate } = .ok (s, none) ∧
-      atomDeserialize e .pyDate s { format := some fmtDate } = some (.pyDate y m d)
+/-- a real calendar date has a month in 1..12 and a day in 1..31 -/
+theorem valid_date_bounds (y m d : Nat) (hv : validateDate y m d = true) :
+    1 ≤ m ∧ m ≤ 12 ∧ 1 ≤ d ∧ d ≤ 31 := by
+  obtain ⟨b1, b2, b3, _⟩ := Proofs.DatesFormatParse.validateDate_bounds _ _ _ hv
+  refine ⟨by omega, by omega, by omega, ?_⟩
+  have hv' := hv
+  unfold validateDate at hv'
+  have hmm : ((m : Int).toNat) = m := by omega
+  simp only [hmm] at hv'
+  have hcases : m = 1 ∨ m = 2 ∨ m = 3 ∨ m = 4 ∨ m = 5 ∨ m = 6 ∨ m = 7 ∨ m = 8 ∨ m = 9 ∨ m = 10 ∨ m = 11 ∨
+      m = 12 := by omega
+  rcases hcases with h | h | h | h | h | h | h | h | h | h | h | h <;> subst h <;>
+    simp [monthlen, Tables.mdays] at hv' <;> (try split at hv') <;> omega
 
-/-- **The code violates it** before year 1000: glibc's `%Y` does not zero-pad, `strptime`'s
-`%Y` wants four digits (`date(999, 1, 2)` → `'999-01-02'` → ConverterError) -/
-theorem date_format_year_counterexample : ¬ DateFormatRoundTrip := by
-  intro h
-  obtain ⟨s, h1, h2⟩ := h asciiCEnv 999 1 2 (by decide) (by decide) (by decide)
-  have hs : atomSerialize (.pyDate ((999 : Nat) : Int) ((1 : Nat) : Int) ((2 : Nat) : Int)) { format := some fmtDate }
-      = .ok (['9', '9', '9', '-', '0', '1', '-', '0', '2'], none) := rfl
-  rw [hs] at h1
-  injection h1 with h1
-  injection h1 with h1 _
-  subst h1
-  revert h2
-  decide
-
-/-- **Provable part**: years 1000–9999 (the dates `strftime` writes with four digits) -/
-theorem date_format_rt_partial (e : CEnv) (y m d : Nat) (hy1 : 1000 ≤ y) (hy2 : y ≤ 9999)
+/-- **`datetime.date` with `%Y-%m-%d`, full strength** (was refuted by `date(999, 1, 2)` before
+`DateTimeBase.serialize` padded the year): every date of the proleptic calendar that Python
+can represent (years 1–9999) is written as `YYYY-MM-DD` and read back as the same date -/
+theorem date_format_rt (e : CEnv) (y m d : Nat) (hy1 : 1 ≤ y) (hy2 : y ≤ 9999)
     (hv : validateDate y m d = true) :
     atomSerialize (.pyDate y m d) { format := some fmtDate } =
-      .ok (natStr y ++ '-' :: (two m ++ '-' :: two d), none) ∧
-    atomDeserialize e .pyDate (natStr y ++ '-' :: (two m ++ '-' :: two d)) { format := some fmtDate } =
+      .ok (zpadInt (y : Int) 4 ++ '-' :: (two m ++ '-' :: two d), none) ∧
+    atomDeserialize e .pyDate (zpadInt (y : Int) 4 ++ '-' :: (two m ++ '-' :: two d)) { format := some fmtDate } =
       some (.pyDate y m d) := by
-  -- bounds on month and day from the calendar check
-  have hb : 1 ≤ m ∧ m ≤ 12 ∧ 1 ≤ d ∧ d ≤ 31 := by
-    obtain ⟨b1, b2, b3, _⟩ := Proofs.DatesFormatParse.validateDate_bounds _ _ _ hv
-    refine ⟨by omega, by omega, by omega, ?_⟩
-    unfold validateDate at hv
-    have hmm : ((m : Int).toNat) = m := by omega
-    simp only [hmm] at hv
-    have hcases : m = 1 ∨ m = 2 ∨ m = 3 ∨ m = 4 ∨ m = 5 ∨ m = 6 ∨ m = 7 ∨ m = 8 ∨ m = 9 ∨ m = 10 ∨ m = 11 ∨
-        m = 12 := by omega
-    rcases hcases with h | h | h | h | h | h | h | h | h | h | h | h <;> subst h <;>
-      simp [monthlen, Tables.mdays] at hv <;> (try split at hv) <;> omega
-  obtain ⟨hm1, hm2, hd1, hd2⟩ := hb
+  obtain ⟨hm1, hm2, hd1, hd2⟩ := valid_date_bounds y m d hv
   obtain ⟨hdash, _, _⟩ := dash_colon_T_not_space e.toEnv
+  obtain ⟨hyl, hyd, _⟩ := zpad_spec y 4 (by omega) (by omega)
   constructor
-  · have hm : zpadInt (m : Int) 2 = two m := zpadInt_two m (by omega)
-    have hd : zpadInt (d : Int) 2 = two d := zpadInt_two d (by omega)
-    have hyy : intStr (y : Int) = natStr y := by
-      unfold intStr; simp
-    simp [atomSerialize, dtSerialize, fmtDate, strftime, hm, hd, hyy]
+  · simp [atomSerialize, dtSerialize, fmtDate, strftime, zpadInt_two m (by omega), zpadInt_two d (by omega)]
   · have hc : compileFmt e.toEnv fmtDate false =
         .ok [.dir 'Y', .lit '-', .dir 'm', .lit '-', .dir 'd'] := by
       simp [fmtDate, compileFmt, numDirectives, hdash, Except.map]
     have hfirst : firstMatch e.toEnv [.dir 'Y', .lit '-', .dir 'm', .lit '-', .dir 'd']
-        (natStr y ++ '-' :: (two m ++ '-' :: two d)) {} =
-        some (((({} : TmF).set e.toEnv 'Y' (natStr y)).set e.toEnv 'm' (two m)).set e.toEnv 'd' (two d), []) := by
-      apply firstMatch_year e.toEnv (natStr y) (natStr_len4 y hy1 (by omega)) (natStr_spec y).1
+        (zpadInt (y : Int) 4 ++ '-' :: (two m ++ '-' :: two d)) {} =
+        some (((({} : TmF).set e.toEnv 'Y' (zpadInt (y : Int) 4)).set e.toEnv 'm' (two m)).set e.toEnv 'd' (two d), []) := by
+      apply firstMatch_year e.toEnv _ hyl hyd
       rw [firstMatch_lit]
       apply firstMatch_two e.toEnv 'm' (by decide) m (by omega) (by simp [twoOk]; omega)
       rw [firstMatch_lit]
       have := firstMatch_two e.toEnv 'd' (by decide) d (by omega) (by simp [twoOk]; omega) [] []
-        ((({} : TmF).set e.toEnv 'Y' (natStr y)).set e.toEnv 'm' (two m)) _ (firstMatch_nil _ _ _)
+        ((({} : TmF).set e.toEnv 'Y' (zpadInt (y : Int) 4)).set e.toEnv 'm' (two m)) _ (firstMatch_nil _ _ _)
       simpa using this
     have hstr := strptime_of_first e.toEnv _ fmtDate _ _ hc (by decide) hfirst
-    simp only [TmF.set, pyIntC_natStr, pyIntC_two e.toEnv m (by omega), pyIntC_two e.toEnv d (by omega)] at hstr
+    simp only [TmF.set, pyIntC_zpad e.toEnv y 4 (by omega) (by omega), pyIntC_two e.toEnv m (by omega),
+      pyIntC_two e.toEnv d (by omega)] at hstr
     simp only [atomDeserialize, dtParse, hstr]
     have hy0 : ¬ ((y : Int) < 1) := by omega
     simp [hy0, hv]
 
-example : validateDate (2024 : Nat) (2 : Nat) (29 : Nat) = true := by decide
+example : validateDate (999 : Nat) (2 : Nat) (28 : Nat) = true := by decide
 
-/-- **`datetime.time` with `%H:%M:%S`** (full strength for whole seconds): every time of day is
-written zero padded and read back as the same value -/
-theorem time_format_rt (e : CEnv) (h mi sec : Nat) (hh : h ≤ 23) (hmi : mi ≤ 59) (hs : sec ≤ 59) :
-    atomSerialize (.pyTime h mi sec 0) { format := some fmtTime } =
-      .ok (two h ++ ':' :: (two mi ++ ':' :: two sec), none) ∧
-    atomDeserialize e .pyTime (two h ++ ':' :: (two mi ++ ':' :: two sec)) { format := some fmtTime } =
-      some (.pyTime h mi sec 0) := by
+/-- the earlier witness, now read back -/
+theorem date_999_rt :
+    atomSerialize (.pyDate 999 1 2) { format := some fmtDate } = .ok (['0','9','9','9','-','0','1','-','0','2'], none) ∧
+    atomDeserialize asciiCEnv .pyDate ['0','9','9','9','-','0','1','-','0','2'] { format := some fmtDate } =
+      some (.pyDate 999 1 2) := by
+  have := date_format_rt asciiCEnv 999 1 2 (by decide) (by decide) (by decide)
+  exact this
+
+/-- **`datetime.time` with `%H:%M:%S.%f`, full strength**: hours, minutes, seconds and all six
+digits of the microseconds -/
+theorem time_format_rt (e : CEnv) (h mi sec us : Nat) (hh : h ≤ 23) (hmi : mi ≤ 59) (hs : sec ≤ 59)
+    (hus : us < 1000000) :
+    atomSerialize (.pyTime h mi sec us) { format := some fmtTimeF } =
+      .ok (two h ++ ':' :: (two mi ++ ':' :: (two sec ++ '.' :: zpadInt (us : Int) 6)), none) ∧
+    atomDeserialize e .pyTime (two h ++ ':' :: (two mi ++ ':' :: (two sec ++ '.' :: zpadInt (us : Int) 6)))
+      { format := some fmtTimeF } = some (.pyTime h mi sec us) := by
   obtain ⟨_, hcolon, _⟩ := dash_colon_T_not_space e.toEnv
+  have hdot : e.toEnv.isSpace '.' = false := by rw [isSpace_ascii e.toEnv _ (by decide)]; decide
+  obtain ⟨hul, hud, _⟩ := zpad_spec us 6 (by omega) (by omega)
   constructor
-  · simp [atomSerialize, dtSerialize, fmtTime, strftime, zpadInt_two h (by omega), zpadInt_two mi (by omega),
-      zpadInt_two sec (by omega)]
-  · have hc : compileFmt e.toEnv fmtTime false =
-        .ok [.dir 'H', .lit ':', .dir 'M', .lit ':', .dir 'S'] := by
-      simp [fmtTime, compileFmt, numDirectives, hcolon, Except.map]
-    have hfirst : firstMatch e.toEnv [.dir 'H', .lit ':', .dir 'M', .lit ':', .dir 'S']
-        (two h ++ ':' :: (two mi ++ ':' :: two sec)) {} =
-        some (((({} : TmF).set e.toEnv 'H' (two h)).set e.toEnv 'M' (two mi)).set e.toEnv 'S' (two sec), []) := by
+  · simp [atomSerialize, dtSerialize, fmtTimeF, fmtTime, strftime, zpadInt_two h (by omega),
+      zpadInt_two mi (by omega), zpadInt_two sec (by omega)]
+  · have hc : compileFmt e.toEnv fmtTimeF false =
+        .ok [.dir 'H', .lit ':', .dir 'M', .lit ':', .dir 'S', .lit '.', .dir 'f'] := by
+      simp [fmtTimeF, fmtTime, compileFmt, numDirectives, hcolon, hdot, Except.map]
+    have hfirst : firstMatch e.toEnv [.dir 'H', .lit ':', .dir 'M', .lit ':', .dir 'S', .lit '.', .dir 'f']
+        (two h ++ ':' :: (two mi ++ ':' :: (two sec ++ '.' :: zpadInt (us : Int) 6))) {} =
+        some ((((({} : TmF).set e.toEnv 'H' (two h)).set e.toEnv 'M' (two mi)).set e.toEnv 'S' (two sec)).set
+          e.toEnv 'f' (zpadInt (us : Int) 6), []) := by
       apply firstMatch_two e.toEnv 'H' (by decide) h (by omega) (by simp [twoOk]; omega)
       rw [firstMatch_lit]
       apply firstMatch_two e.toEnv 'M' (by decide) mi (by omega) (by simp [twoOk]; omega)
       rw [firstMatch_lit]
-      have := firstMatch_two e.toEnv 'S' (by decide) sec (by omega) (by simp [twoOk]; omega) [] []
-        ((({} : TmF).set e.toEnv 'H' (two h)).set e.toEnv 'M' (two mi)) _ (firstMatch_nil _ _ _)
+      apply firstMatch_two e.toEnv 'S' (by decide) sec (by omega) (by simp [twoOk]; omega)
+      rw [firstMatch_lit]
+      have := firstMatch_frac e.toEnv _ hul hud [] []
+        (((({} : TmF).set e.toEnv 'H' (two h)).set e.toEnv 'M' (two mi)).set e.toEnv 'S' (two sec)) _
+        (firstMatch_nil _ _ _)
       simpa using this
-    have hstr := strptime_of_first e.toEnv _ fmtTime _ _ hc (by decide) hfirst
+    have hstr := strptime_of_first e.toEnv _ fmtTimeF _ _ hc (by decide) hfirst
+    have hlj : ljust (zpadInt (us : Int) 6) 6 '0' = zpadInt (us : Int) 6 := by
+      unfold ljust; simp [hul]
     simp only [TmF.set, pyIntC_two e.toEnv h (by omega), pyIntC_two e.toEnv mi (by omega),
-      pyIntC_two e.toEnv sec (by omega)] at hstr
+      pyIntC_two e.toEnv sec (by omega), hlj, pyIntC_zpad e.toEnv us 6 (by omega) (by omega)] at hstr
     simp only [atomDeserialize, dtParse, hstr]
     have hs0 : ¬ ((sec : Int) > 59) := by omega
     have hvd : validateDate 1900 1 1 = true := by decide
     simp [hs0, hvd]
 
-example : (23 : Nat) ≤ 23 ∧ (59 : Nat) ≤ 59 := by decide
+example : (23 : Nat) ≤ 23 ∧ (59 : Nat) ≤ 59 ∧ (999999 : Nat) < 1000000 := by decide
 
-/-- **`datetime.datetime` with `%Y-%m-%dT%H:%M:%S`**, years 1000–9999, whole seconds
-(before year 1000 the same defect as for `date`: `date_format_year_counterexample`) -/
-theorem datetime_format_rt_partial (e : CEnv) (y m d h mi sec : Nat) (hy1 : 1000 ≤ y) (hy2 : y ≤ 9999)
-    (hv : validateDate y m d = true) (hh : h ≤ 23) (hmi : mi ≤ 59) (hs : sec ≤ 59) :
-    atomSerialize (.pyDateTime ⟨y, m, d, h, mi, sec, 0⟩) { format := some fmtDateTime } =
-      .ok (natStr y ++ '-' :: (two m ++ '-' :: (two d ++ 'T' :: (two h ++ ':' :: (two mi ++ ':' :: two sec)))), none) ∧
+/-- **`datetime.datetime` with `%Y-%m-%dT%H:%M:%S.%f`, full strength**: every naive datetime -/
+theorem datetime_format_rt (e : CEnv) (y m d h mi sec us : Nat) (hy1 : 1 ≤ y) (hy2 : y ≤ 9999)
+    (hv : validateDate y m d = true) (hh : h ≤ 23) (hmi : mi ≤ 59) (hs : sec ≤ 59) (hus : us < 1000000) :
+    atomSerialize (.pyDateTime ⟨y, m, d, h, mi, sec, us⟩) { format := some fmtDateTimeF } =
+      .ok (zpadInt (y : Int) 4 ++ '-' :: (two m ++ '-' :: (two d ++ 'T' :: (two h ++ ':' :: (two mi ++ ':' ::
+        (two sec ++ '.' :: zpadInt (us : Int) 6))))), none) ∧
     atomDeserialize e .pyDateTime
-        (natStr y ++ '-' :: (two m ++ '-' :: (two d ++ 'T' :: (two h ++ ':' :: (two mi ++ ':' :: two sec)))))
-        { format := some fmtDateTime } = some (.pyDateTime ⟨y, m, d, h, mi, sec, 0⟩) := by
-  have hb : 1 ≤ m ∧ m ≤ 12 ∧ 1 ≤ d ∧ d ≤ 31 := by
-    obtain ⟨b1, b2, b3, _⟩ := Proofs.DatesFormatParse.validateDate_bounds _ _ _ hv
-    refine ⟨by omega, by omega, by omega, ?_⟩
-    have hv' := hv
-    unfold validateDate at hv'
-    have hmm : ((m : Int).toNat) = m := by omega
-    simp only [hmm] at hv'
-    have hcases : m = 1 ∨ m = 2 ∨ m = 3 ∨ m = 4 ∨ m = 5 ∨ m = 6 ∨ m = 7 ∨ m = 8 ∨ m = 9 ∨ m = 10 ∨ m = 11 ∨
-        m = 12 := by omega
-    rcases hcases with h | h | h | h | h | h | h | h | h | h | h | h <;> subst h <;>
-      simp [monthlen, Tables.mdays] at hv' <;> (try split at hv') <;> omega
-  obtain ⟨hm1, hm2, hd1, hd2⟩ := hb
+        (zpadInt (y : Int) 4 ++ '-' :: (two m ++ '-' :: (two d ++ 'T' :: (two h ++ ':' :: (two mi ++ ':' ::
+          (two sec ++ '.' :: zpadInt (us : Int) 6))))))
+        { format := some fmtDateTimeF } = some (.pyDateTime ⟨y, m, d, h, mi, sec, us⟩) := by
+  obtain ⟨hm1, hm2, hd1, hd2⟩ := valid_date_bounds y m d hv
   obtain ⟨hdash, hcolon, hT⟩ := dash_colon_T_not_space e.toEnv
+  have hdot : e.toEnv.isSpace '.' = false := by rw [isSpace_ascii e.toEnv _ (by decide)]; decide
+  obtain ⟨hyl, hyd, _⟩ := zpad_spec y 4 (by omega) (by omega)
+  obtain ⟨hul, hud, _⟩ := zpad_spec us 6 (by omega) (by omega)
   constructor
-  · have hyy : intStr (y : Int) = natStr y := by unfold intStr; simp
-    simp [atomSerialize, dtSerialize, fmtDateTime, fmtDate, fmtTime, strftime, hyy, zpadInt_two m (by omega),
+  · simp [atomSerialize, dtSerialize, fmtDateTimeF, fmtDate, fmtTimeF, fmtTime, strftime, zpadInt_two m (by omega),
       zpadInt_two d (by omega), zpadInt_two h (by omega), zpadInt_two mi (by omega), zpadInt_two sec (by omega)]
-  · have hc : compileFmt e.toEnv fmtDateTime false =
+  · have hc : compileFmt e.toEnv fmtDateTimeF false =
         .ok [.dir 'Y', .lit '-', .dir 'm', .lit '-', .dir 'd', .lit 'T', .dir 'H', .lit ':', .dir 'M', .lit ':',
-          .dir 'S'] := by
-      simp [fmtDateTime, fmtDate, fmtTime, compileFmt, numDirectives, hdash, hcolon, hT, Except.map]
+          .dir 'S', .lit '.', .dir 'f'] := by
+      simp [fmtDateTimeF, fmtDate, fmtTimeF, fmtTime, compileFmt, numDirectives, hdash, hcolon, hT, hdot, Except.map]
     have hfirst : firstMatch e.toEnv [.dir 'Y', .lit '-', .dir 'm', .lit '-', .dir 'd', .lit 'T', .dir 'H', .lit ':',
-          .dir 'M', .lit ':', .dir 'S']
-        (natStr y ++ '-' :: (two m ++ '-' :: (two d ++ 'T' :: (two h ++ ':' :: (two mi ++ ':' :: two sec))))) {} =
-        some ((((((({} : TmF).set e.toEnv 'Y' (natStr y)).set e.toEnv 'm' (two m)).set e.toEnv 'd' (two d)).set
-          e.toEnv 'H' (two h)).set e.toEnv 'M' (two mi)).set e.toEnv 'S' (two sec), []) := by
-      apply firstMatch_year e.toEnv (natStr y) (natStr_len4 y hy1 (by omega)) (natStr_spec y).1
+          .dir 'M', .lit ':', .dir 'S', .lit '.', .dir 'f']
+        (zpadInt (y : Int) 4 ++ '-' :: (two m ++ '-' :: (two d ++ 'T' :: (two h ++ ':' :: (two mi ++ ':' ::
+          (two sec ++ '.' :: zpadInt (us : Int) 6)))))) {} =
+        some (((((((({} : TmF).set e.toEnv 'Y' (zpadInt (y : Int) 4)).set e.toEnv 'm' (two m)).set e.toEnv 'd' (two d)).set
+          e.toEnv 'H' (two h)).set e.toEnv 'M' (two mi)).set e.toEnv 'S' (two sec)).set e.toEnv 'f'
+          (zpadInt (us : Int) 6), []) := by
+      apply firstMatch_year e.toEnv _ hyl hyd
       rw [firstMatch_lit]
       apply firstMatch_two e.toEnv 'm' (by decide) m (by omega) (by simp [twoOk]; omega)
       rw [firstMatch_lit]
@@ -158,13 +153,18 @@ theorem datetime_format_rt_partial (e : CEnv) (y m d h mi sec : Nat) (hy1 : 1000
       rw [firstMatch_lit]
       apply firstMatch_two e.toEnv 'M' (by decide) mi (by omega) (by simp [twoOk]; omega)
       rw [firstMatch_lit]
-      have := firstMatch_two e.toEnv 'S' (by decide) sec (by omega) (by simp [twoOk]; omega) [] []
-        (((((({} : TmF).set e.toEnv 'Y' (natStr y)).set e.toEnv 'm' (two m)).set e.toEnv 'd' (two d)).set
-          e.toEnv 'H' (two h)).set e.toEnv 'M' (two mi)) _ (firstMatch_nil _ _ _)
+      apply firstMatch_two e.toEnv 'S' (by decide) sec (by omega) (by simp [twoOk]; omega)
+      rw [firstMatch_lit]
+      have := firstMatch_frac e.toEnv _ hul hud [] []
+        ((((((({} : TmF).set e.toEnv 'Y' (zpadInt (y : Int) 4)).set e.toEnv 'm' (two m)).set e.toEnv 'd' (two d)).set
+          e.toEnv 'H' (two h)).set e.toEnv 'M' (two mi)).set e.toEnv 'S' (two sec)) _ (firstMatch_nil _ _ _)
       simpa using this
-    have hstr := strptime_of_first e.toEnv _ fmtDateTime _ _ hc (by decide) hfirst
-    simp only [TmF.set, pyIntC_natStr, pyIntC_two e.toEnv m (by omega), pyIntC_two e.toEnv d (by omega),
-      pyIntC_two e.toEnv h (by omega), pyIntC_two e.toEnv mi (by omega), pyIntC_two e.toEnv sec (by omega)] at hstr
+    have hstr := strptime_of_first e.toEnv _ fmtDateTimeF _ _ hc (by decide) hfirst
+    have hlj : ljust (zpadInt (us : Int) 6) 6 '0' = zpadInt (us : Int) 6 := by
+      unfold ljust; simp [hul]
+    simp only [TmF.set, pyIntC_zpad e.toEnv y 4 (by omega) (by omega), pyIntC_two e.toEnv m (by omega),
+      pyIntC_two e.toEnv d (by omega), pyIntC_two e.toEnv h (by omega), pyIntC_two e.toEnv mi (by omega),
+      pyIntC_two e.toEnv sec (by omega), hlj, pyIntC_zpad e.toEnv us 6 (by omega) (by omega)] at hstr
     simp only [atomDeserialize, dtParse, hstr]
     have hy0 : ¬ ((y : Int) < 1) := by omega
     have hs0 : ¬ ((sec : Int) > 59) := by omega
